@@ -16,6 +16,8 @@ ID = 'C20'
 STYLES = ('snake', 'scream', 'kebab', 'camel', 'pascal')
 LETTERS = 'abz'
 WORDS = [''.join(p) for n in (2, 3) for p in itertools.product(LETTERS, repeat=n)]   # 36 words
+# lowercase alphabetic words of >= 2 letters that are also Python (soft) keywords: perfectly good field-name words
+KEYWORDS = ['as', 'if', 'in', 'is', 'or', 'and', 'def', 'del', 'for', 'not', 'try', 'class', 'from', 'pass', 'lambda', 'match', 'type', 'none', 'true']
 
 META = {
     'rule': "every snake_case name of 1..W words (2-3 letters over {a,b,z}) x every style: canonical form by an "
@@ -25,7 +27,7 @@ META = {
             "A case is non-trivial if it has >= 2 words or is a malformed shape; distinct key = (law, style, style2, #words/shape).",
     'assumptions': ["alphabet restricted to lowercase ASCII letters {a,b,z}, words of 2-3 letters (the property's own domain: "
                     "words of at least two letters); digits and non-ASCII letters are outside the alphabet"],
-    'bounds': {'quick': 'W=3 words (47 988 names) x 5 x 5 styles; 1 332 names x 12 malformed shapes; 1 332 x 5 classes',
+    'bounds': {'quick': 'W=3 words (47 988 names) x 5 x 5 styles; 1 332 names x 18 malformed shapes (incl. mixed separator kinds); 1 332 x 5 classes',
                'thorough': 'W=4 words (1 727 604 names) x 5 x 5 styles; same malformed shapes and classes'},
     'design_ref': 'DESIGN.md section 3, C20',
 }
@@ -57,6 +59,7 @@ def plan(tier, seed):
             for w in WORDS:
                 shards.append({'kind': 'names', 'nw': nw, 'first': w})
     shards.append({'kind': 'malformed'})
+    shards.append({'kind': 'keywords'})
     for st in STYLES:
         shards.append({'kind': 'classes', 'style': st})
     return shards
@@ -126,6 +129,9 @@ MALFORMED = [
     lambda x: x.replace('_', '_-', 1) if '_' in x else x + '-_' + x,
     lambda x: '__' + x, lambda x: x + '--',
     lambda x: '_', lambda x: '', lambda x: '-_',
+    # mixed separator kinds: the defect is in one kind while the other kind is also present
+    lambda x: '-' + x + '_' + x, lambda x: x + '_' + x + '-', lambda x: x + '--' + x + '_' + x, lambda x: x + '__' + x + '-' + x,
+    lambda x: '_' + x + '-' + x, lambda x: x + '-' + x + '_',
 ]
 
 
@@ -172,6 +178,10 @@ def check_class(pane, words, style, res):
         if back != inst:
             core.add_violation(res, {'law': 'class_in', 'style': style, 'nwords': nw},
                                f"class rename={style!r}, field {x!r}: from_data({{{want!r}: 3}}) != instance", cell, cost=nw)
+        d3 = inst.dict(set_only=True, rename=style)
+        if d3 != {want: 3}:
+            core.add_violation(res, {'law': 'class_dict_set_only', 'style': style, 'nwords': nw},
+                               f"dict(set_only=True, rename={style!r}) of field {x!r} gave {d3!r}, expected key {want!r}", cell, cost=nw)
         d2 = inst.dict(rename=style)
         if d2 != {want: 3}:
             core.add_violation(res, {'law': 'class_dict', 'style': style, 'nwords': nw},
@@ -218,6 +228,20 @@ def run_shard(shard, tier):
                 check_malformed(rename_field, ws, res)
         res['outcomes']['malformed'] += res['states']
         res['samples'].append({'malformed': [f('ab_ba') for f in MALFORMED]})
+    elif kind == 'keywords':
+        # the same laws and the same malformed shapes over words that are Python keywords (mixed with ordinary words)
+        pool = KEYWORDS + WORDS[:3]
+        n = 0
+        for nw in (1, 2):
+            for ws in itertools.product(pool, repeat=nw):
+                check_name(rename_field, ws, res, None)
+                check_malformed(rename_field, ws, res)
+                n += 1
+        for a, b, c in itertools.product(KEYWORDS[:8], WORDS[:2], KEYWORDS[8:14]):
+            check_name(rename_field, (a, b, c), res, None)
+            n += 1
+        res['outcomes']['keyword_names'] += n
+        res['nontrivial'].add('keywords')
     elif kind == 'classes':
         import warnings
         warnings.simplefilter('ignore')
